@@ -238,7 +238,7 @@ def c06_4(ctx):
             seen.add('init')
             continue
         fcl = filter_facts_at(ctx, fn, a, res)
-        lits = {l for c in fcl for l in c if not (l[0] == 'call' and 'startswith' in l[1]) and not (l[0] == 'ge' and 'len(' in str(l[1]))}
+        lits = {l for c in fcl for l in c if not (l[0] == 'call' and 'startswith' in l[1]) and l != ('truthy', 'line_str', True)}
         unit = all(len(c) == 1 for c in fcl)
         if isinstance(a.value, ast.Call) and unparse(a.value.func) == 'LabelScope':
             want = {('truthy', 'lobj.compilable', True), ('isinstance', 'lobj', 'LabelLine', True), ('truthy', 'lobj.is_constant', False),
@@ -265,7 +265,7 @@ def c06_4(ctx):
     ok = len(sts) == 1 and unparse(sts[0].value) == 'current_scope'
     if ok:
         fcl = filter_facts_at(ctx, fn, sts[0], res)
-        lits = {l for c in fcl for l in c if not (l[0] == 'call' and 'startswith' in l[1]) and l[0] != 'ge'}
+        lits = {l for c in fcl for l in c if not (l[0] == 'call' and 'startswith' in l[1]) and l != ('truthy', 'line_str', True)}
         ok = lits == {('truthy', 'lobj.compilable', True)}
     ctx.check(ok, 'region:every-compilable-line-gets-current-scope', fn.site(sts[0]) if sts else fn.site(),
               'every compilable line is assigned the scope current at that line', '; '.join(unparse(s) for s in sts))
